@@ -180,6 +180,38 @@ func scenario(seed int64, k int, res *l2.Result) {
 		}
 		b.RestartBackground()
 	}
+	// Restart while the filter headers lag: the peers stop answering filter-
+	// header requests, the honest chain grows (block headers follow, filter
+	// headers cannot), the client is restarted on that data directory and the
+	// peers answer again. With the honest chain at rest the client must still
+	// get to the honest tip.
+	if good && k%4 == 1 {
+		tip = b.Tip()
+		b.WithholdCF.Store(true)
+		ext := w.G.Extend(tip, 3+int(plan.Seed%17), 0)
+		nt := ext[len(ext)-1]
+		b.SetHonestTip(nt, plan.Announce)
+		lag := l2.WaitFor(20*time.Second, func() bool {
+			_, h, err := w.Svc.BlockHeaders.ChainTip()
+			return err == nil && int32(h) == nt.Height
+		})
+		_, fh, _ := w.Svc.RegFilterHeaders.ChainTip()
+		b.StopBackground()
+		if !lag || int32(fh) >= nt.Height {
+			b.WithholdCF.Store(false)
+			res.Count("lag_restart_skipped", 1)
+		} else if err := w.RestartClient(nil, l2.ClientOpts{}, 60*time.Second); err != nil {
+			b.WithholdCF.Store(false)
+			res.Inconcl("restart: " + err.Error())
+		} else {
+			b.WithholdCF.Store(false)
+			res.Count("restarts_with_lagging_filter_headers", 1)
+			res.Count("filter_headers_behind_at_restart", int64(nt.Height)-int64(fh))
+			ok3, stuck3, last3 := b.AwaitTip(nt, deadline)
+			good = phase("restart-with-lagging-filter-headers", nt.Height, ok3, stuck3, last3)
+		}
+		b.RestartBackground()
+	}
 	b.StopBackground()
 	res.Count("api_samples", b.Sampled.Load())
 	res.Count("events_logged", w.Log.Len())
